@@ -100,10 +100,11 @@ def encode_trace(tr, sid):
 _VERDICT = re.compile(r'<<"VERDICT", "(.*)">>\s*$')
 
 
-def check_traces(traces, shards=8, keep=False):
+def check_traces(traces, shards=8, keep=False, module="MonTrace", encoder=None):
     """traces: list of recorded traces. Returns (verdicts, stats): verdicts[i] = dict(viol=[...], vpos={}, cnt={})."""
     os.makedirs(OUT, exist_ok=True)
-    enc = [encode_trace(tr, str(i))[0] for i, tr in enumerate(traces)]
+    encoder = encoder or encode_trace
+    enc = [encoder(tr, str(i))[0] for i, tr in enumerate(traces)]
     n = len(enc)
     shards = max(1, min(shards, (n + 24) // 25))
     parts = [list(range(k, n, shards)) for k in range(shards)]
@@ -115,7 +116,7 @@ def check_traces(traces, shards=8, keep=False):
         files.append(path)
 
     def one(path):
-        return run_tlc("MonTrace", cfg="MonTrace.cfg", workers=1, env={"TRACE_FILE": path}, timeout=3600)
+        return run_tlc(module, cfg=module + ".cfg", workers=1, env={"TRACE_FILE": path}, timeout=3600)
 
     with ThreadPoolExecutor(max_workers=shards) as ex:
         results = list(ex.map(one, files))
